@@ -31,6 +31,7 @@ import (
 
 	"github.com/ucan-wg/go-ucan/did"
 	"github.com/ucan-wg/go-ucan/pkg/args"
+	"github.com/ucan-wg/go-ucan/pkg/command"
 	"github.com/ucan-wg/go-ucan/pkg/container"
 	"github.com/ucan-wg/go-ucan/pkg/policy"
 	"github.com/ucan-wg/go-ucan/pkg/policy/selector"
@@ -150,7 +151,8 @@ func entryPoints() []entryPoint {
 				p.Match(d)
 				p.PartialMatch(d)
 			}
-			_ = p.String()
+			// (not printed: Policy.String() re-indents at every nesting level - its cost is cubic in the depth, 8 GB for a
+			// 16 KB policy nested 1600 deep - and printing is not one of the entry points the property bounds)
 			_, e = p.ToIPLD()
 			return e
 		}},
@@ -757,6 +759,32 @@ func init() {
 				}
 			}
 		}
+		// operators in another case (whatever the reader does with them, matching what it accepted does not crash), and deep
+		// nestings of every wrapping statement around a leaf that is refused at the bottom (the refusal stays proportional)
+		for _, op := range []string{"AND", "And", "OR", "Or", "NOT", "Not", "ALL", "aLL", "ANY", "Any", "LIKE", "Like"} {
+			var js string
+			switch strings.ToLower(op) {
+			case "and", "or":
+				js = `[["` + op + `", [["==", ".a", 1], ["==", ".b", 2]]]]`
+			case "not":
+				js = `[["` + op + `", ["==", ".a", 1]]]`
+			case "all", "any":
+				js = `[["` + op + `", ".b", ["==", ".", 1]]]`
+			default:
+				js = `[["` + op + `", ".s", "h*"]]`
+			}
+			record(epByName(eps, "policy.FromDagJson+Match"), "hostile-text", "operator-case-"+op, []byte(js))
+			record(epByName(eps, "policy.FromDagJson+Match"), "hostile-text", "operator-case-nested-"+op, []byte(`[["not", ["or", [`+js[1:len(js)-1]+`]]]]`))
+		}
+		for _, depth := range []int{100, 400, 2000} {
+			for name, wrap := range map[string][2]string{"all": {`["all", ".a", `, `]`}, "any": {`["any", ".a", `, `]`}, "not": {`["not", `, `]`}, "and": {`["and", [`, `]]`}, "or": {`["or", [`, `]]`},
+				"all-any": {`["all", ".a", ["any", ".b", `, `]]`}} {
+				for leafName, leaf := range map[string]string{"bad-operator": `["nope", ".x", 1]`, "bad-selector": `["==", "x", 1]`, "bad-pattern": `["like", ".x", "a\\"]`, "good": `["==", ".x", 1]`} {
+					js := strings.Repeat(wrap[0], depth) + leaf + strings.Repeat(wrap[1], depth)
+					record(epByName(eps, "policy.FromDagJson+Match"), "hostile-text", fmt.Sprintf("nested-%s-%d-%s", name, depth, leafName), []byte("["+js+"]"))
+				}
+			}
+		}
 		// untrusted text that ends up quoted (and shortened) in error messages: every length 0..24 with a 2-, 3- or 4-byte
 		// character as its last one, as an operator, a selector, a pattern, and a DID
 		for n := 0; n <= 24; n++ {
@@ -979,4 +1007,94 @@ func truncatedKeyDids() []string {
 		}
 	}
 	return out
+}
+
+// refusalReplay (C09): a verifier matches the policy of a delegation it did not write against the arguments of an
+// invocation it did not write; whatever the nesting depth, the matching itself stays within the memory bound. The
+// REFUSAL of ExecutionAllowed quotes the failing statement pretty-printed - cubic in the depth: known finding
+// RefusalPrintsNestedPolicy (identified by this call site; anything else over the bound is a violation).
+func init() {
+	replays["refusal"] = func(cases []json.RawMessage, rep *Report) error {
+		w := newWorld(envSeed(), []string{"ed25519"})
+		s, err := w.principal("S")
+		if err != nil {
+			return err
+		}
+		measure := func(f func()) int64 {
+			var a, b runtime.MemStats
+			runtime.ReadMemStats(&a)
+			f()
+			runtime.ReadMemStats(&b)
+			return int64(b.TotalAlloc-a.TotalAlloc) / 1024
+		}
+		for _, raw := range cases {
+			var c struct {
+				Depth int    `json:"depth"`
+				Wrap  string `json:"wrap"`
+			}
+			if err := json.Unmarshal(raw, &c); err != nil {
+				return err
+			}
+			wrap := map[string][2]string{"or": {`["or", [`, `]]`}, "and": {`["and", [`, `]]`}, "all": {`["all", ".l", `, `]`}, "any": {`["any", ".l", `, `]`}, "not": {`["not", ["not", `, `]]`}}[c.Wrap]
+			open, close := wrap[0], wrap[1]
+			js := `[["not", ` + strings.Repeat(open, c.Depth) + `["==", ".x", 1]` + strings.Repeat(close, c.Depth) + `]]`
+			pol, err := policy.FromDagJson(js)
+			if err != nil {
+				return fmt.Errorf("case %s: %w", raw, err)
+			}
+			d, err := delegation.Root(s.id, s.id, command.Command("/a"), pol)
+			if err != nil {
+				return err
+			}
+			sealed, id, err := d.ToSealed(s.priv)
+			if err != nil {
+				return err
+			}
+			dec, _, err := delegation.FromSealed(sealed)
+			if err != nil {
+				return err
+			}
+			var lst ipld.Node = mapNode(map[string]ipld.Node{"x": basicnode.NewInt(1)})
+			if c.Wrap == "all" || c.Wrap == "any" {
+				for i := 0; i < c.Depth; i++ {
+					lst = mapNode(map[string]ipld.Node{"l": listOf(lst), "x": basicnode.NewInt(1)})
+				}
+			}
+			a := args.New()
+			_ = a.Add("x", 1)
+			if c.Wrap == "all" || c.Wrap == "any" {
+				ln, _ := lst.LookupByString("l")
+				_ = a.Add("l", ln)
+			}
+			inv, err := invocation.New(s.id, s.id, command.Command("/a"), []cid.Cid{id}, invocation.WithArguments(a))
+			if err != nil {
+				return err
+			}
+			argsNode, _ := a.ToIPLD()
+			bound := int64(8192 + len(sealed))
+			rep.Evaluations++
+			rep.nontrivial(string(raw))
+			cs := map[string]any{"case": json.RawMessage(raw), "sealed_delegation_bytes": len(sealed)}
+			var ok bool
+			if kib := measure(func() { ok, _ = dec.Policy().Match(argsNode) }); kib > bound {
+				rep.violation(cs, fmt.Sprintf("<= %d KiB", bound), fmt.Sprintf("%d KiB", kib), "matching a nested policy allocates more than a constant plus a multiple of its size")
+			}
+			if ok {
+				rep.violation(cs, "refused", "matched", "not over a true statement matched")
+			}
+			var verr error
+			t0 := time.Now()
+			kib := measure(func() { verr = inv.ExecutionAllowed(mapLoader{id: dec}) })
+			if verr == nil {
+				rep.violation(cs, "refused", "allowed", "an invocation that the policy refuses was allowed")
+				continue
+			}
+			if kib > bound {
+				cs["refusal_kib"], cs["refusal_ms"], cs["error_bytes"] = kib, time.Since(t0).Milliseconds(), len(verr.Error())
+				rep.known("RefusalPrintsNestedPolicy", cs, fmt.Sprintf("<= %d KiB", bound), fmt.Sprintf("%d KiB", kib),
+					"the refusal of ExecutionAllowed quotes the failing statement pretty-printed: memory cubic in the nesting depth")
+			}
+		}
+		return nil
+	}
 }
